@@ -1,50 +1,95 @@
-"""Run a set of FnSpecs (and lemma generators) against the current /repo tree."""
+"""Run a set of FnSpecs against the current /repo tree.
+
+Phase 1 (parallel, one worker per function): locate the function, execute it symbolically, turn every
+obligation (and its residuals for known finding classes) into SMT-LIB2 text.
+Phase 2 (parallel, one task per obligation): discharge (solve.py).
+"""
+import multiprocessing as mp
 import time
 import traceback
 
+import z3
+
 from . import locate, solve
-from .engine import Engine, OutOfSubset, EngineError
+from .engine import Engine, OutOfSubset, EngineError, Obligation
+
+_SPECS = []
 
 
-class FunctionReport:
-    def __init__(self, spec):
-        self.spec = spec
-        self.file = spec.file
-        self.qualname = spec.qualname
-        self.sha256 = None
-        self.paths = 0
-        self.obligations = []
-        self.results = []
-        self.error = None
-        self.gen_time = 0.0
+def ob_to_dict(ob):
+    d = {
+        "name": ob.full_name(),
+        "kind": ob.kind,
+        "line": ob.line,
+        "path_id": ob.path_id,
+        "trivial": bool(ob.meta.get("trivial")),
+        "meta": {k: v for k, v in ob.meta.items() if k not in ("classes", "trivial")},
+        "goal_text": str(ob.goal)[:1500],
+        "n_facts": len(ob.facts),
+        "smt2": None if ob.meta.get("trivial") else solve.to_smt2(ob.facts, ob.goal),
+        "residuals": {},
+    }
+    for cname, cls in (ob.meta.get("classes") or {}).items():
+        d["residuals"][cname] = solve.to_smt2(ob.facts + [z3.Not(cls)], ob.goal)
+    return d
 
 
-def generate(spec):
-    rep = FunctionReport(spec)
+def canaries(obligations, qualname):
+    """`False` as post-condition on every path end: at least one must be refutable, otherwise the
+    contract's assumptions are contradictory and every proof of this function is vacuous."""
+    seen = {}
+    for ob in obligations:
+        if ob.kind in ("post", "post-exc") and ob.path_id not in seen and not ob.meta.get("trivial"):
+            seen[ob.path_id] = Obligation(qualname + "#canary:false", "canary", ob.line, ob.facts, z3.BoolVal(False), ob.path_id)
+    return list(seen.values())[:8]
+
+
+def _gen(i):
+    spec = _SPECS[i]
+    rep = {"file": spec.file, "qualname": spec.qualname, "variant": getattr(spec, "variant", None), "sha256": None, "paths": 0, "obligations": [], "canaries": [], "error": None}
     t0 = time.time()
     try:
         fdef, lines, sha = locate.find(spec.file, spec.qualname)
-        rep.sha256 = sha
+        rep["sha256"] = sha
         eng = Engine(spec, fdef, lines, spec.file, spec.qualname)
-        rep.obligations = eng.run()
-        rep.paths = eng.stats["paths"]
-        rep.stats = eng.stats
+        obs = eng.run()
+        rep["paths"] = eng.stats["paths"]
+        rep["obligations"] = [ob_to_dict(o) for o in obs]
+        rep["canaries"] = [ob_to_dict(o) for o in canaries(obs, spec.qualname)]
     except (OutOfSubset, EngineError, LookupError) as e:
-        rep.error = "%s: %s" % (type(e).__name__, e)
+        rep["error"] = "%s: %s" % (type(e).__name__, e)
     except Exception as e:  # engine crash -> exit 3, never a violation
-        rep.error = "engine crash: %s\n%s" % (e, traceback.format_exc())
-    rep.gen_time = time.time() - t0
+        rep["error"] = "engine crash: %s\n%s" % (e, traceback.format_exc()[-1500:])
+    rep["gen_time"] = round(time.time() - t0, 3)
     return rep
 
 
-def verify(specs, z3_ms=10000, cvc5_ms=20000, both=False):
-    reports = [generate(s) for s in specs]
-    all_obs = []
+def generate_all(specs, procs=16):
+    global _SPECS
+    _SPECS = list(specs)
+    if len(specs) <= 1 or procs == 1:
+        return [_gen(i) for i in range(len(specs))]
+    with mp.get_context("fork").Pool(min(procs, len(specs))) as pool:
+        return pool.map(_gen, range(len(specs)), chunksize=1)
+
+
+def verify(specs, z3_ms=10000, cvc5_ms=20000, both=False, extra_obligations=None):
+    """Returns list of function reports (dicts); each obligation dict gains 'result'."""
+    reports = generate_all(specs)
+    if extra_obligations:
+        reports.append(
+            {"file": "(lemmas over contracts)", "qualname": "lemmas", "variant": None, "sha256": "-", "paths": 0, "obligations": [ob_to_dict(o) for o in extra_obligations], "canaries": [], "error": None, "gen_time": 0.0}
+        )
+    tasks = []
     for r in reports:
-        for ob in r.obligations:
-            all_obs.append((r, ob))
-    results = solve.discharge([ob for _, ob in all_obs], z3_ms=z3_ms, cvc5_ms=cvc5_ms, both=both)
-    for (r, ob), res in zip(all_obs, results):
-        res["obligation"] = ob
-        r.results.append(res)
+        for o in r["obligations"]:
+            if o["trivial"]:
+                o["result"] = {"status": "proved", "by": "simplifier", "backends": [], "model": None}
+            else:
+                tasks.append((o, (o["name"], o["smt2"], z3_ms, cvc5_ms, both)))
+        for o in r["canaries"]:
+            tasks.append((o, (o["name"], o["smt2"], 3000, 3000, False)))
+    results = solve.run_tasks([t for _, t in tasks])
+    for (o, _), res in zip(tasks, results):
+        o["result"] = res
     return reports
